@@ -22,6 +22,28 @@ Proof.
 Qed.
 Print Assumptions C10_lossless.
 
+(** "Preserved EXACTLY": nothing is dropped at all -- a null inside free-form data (tool arguments, _meta contents) is a
+    member like any other and survives; spec-validity rules out nulls at typed positions, the only place where the
+    observation's exclude_none applies. *)
+Theorem C10_lossless_exactly :
+  forall SS fuel t j, wf_schemas SS = true -> wf_ty t = true -> conforms SS fuel t j = true ->
+    preserved_exact j (dump_by_alias SS (ref_validate SS fuel t j))
+    /\ exists v, fallback_validate SS fuel t j = Some v /\ preserved_exact j (dump_by_alias SS v).
+Proof.
+  intros SS fuel t j WF W C. split.
+  - exact (lossless_exact_gen SS WF fuel t j W C).
+  - exact (lossless_exact_fallback SS WF fuel t j W C).
+Qed.
+Print Assumptions C10_lossless_exactly.
+
+Theorem C10_exact_implies_preserved : forall a b, preserved_exact a b -> preserved a b.
+Proof. exact preserved_exact_preserved. Qed.
+Print Assumptions C10_exact_implies_preserved.
+
+Theorem C10_preserved_exact_ok_sound : forall fuel a b, preserved_exact_ok fuel a b = true -> preserved_exact a b.
+Proof. exact preserved_exact_ok_sound. Qed.
+Print Assumptions C10_preserved_exact_ok_sound.
+
 (** Instantiated on the table generated from the code as it is now. *)
 Theorem C10_generated_table_wf : wf_schemas all = true.
 Proof. vm_compute. reflexivity. Qed.
@@ -86,4 +108,19 @@ Example C10_nonvacuous :
   conforms all 8%nat (TModel n_tool) j_tool_meta = true
   /\ preserved_ok 8%nat j_tool_meta (dump_by_alias all (ref_validate all 8%nat (TModel n_tool) j_tool_meta)) = true
   /\ preserved_ok 8%nat j_tool_meta (dump all false (ref_validate all 8%nat (TModel n_tool) j_tool_meta)) = false.
+Proof. vm_compute. repeat split; reflexivity. Qed.
+
+(** A null inside free-form data: spec-valid, kept by the model; an output without it fails the exact judgement (and only
+    that one: the weaker [preserved] cannot see the loss). *)
+Definition j_tool_null_in_meta : json :=
+  JObj [([110; 97; 109; 101], JStr [110]); ([105; 110; 112; 117; 116; 83; 99; 104; 101; 109; 97], JObj []);
+        ([95; 109; 101; 116; 97], JObj [([97], JNull); ([98], JArr [JNull; JObj [([99], JNull)]])])].
+Definition j_tool_null_dropped : json :=
+  JObj [([110; 97; 109; 101], JStr [110]); ([105; 110; 112; 117; 116; 83; 99; 104; 101; 109; 97], JObj []);
+        ([95; 109; 101; 116; 97], JObj [([98], JArr [JNull; JObj []])])].
+Example C10_exact_nonvacuous :
+  conforms all 8%nat (TModel n_tool) j_tool_null_in_meta = true
+  /\ preserved_exact_ok 8%nat j_tool_null_in_meta (dump_by_alias all (ref_validate all 8%nat (TModel n_tool) j_tool_null_in_meta)) = true
+  /\ preserved_exact_ok 8%nat j_tool_null_in_meta j_tool_null_dropped = false
+  /\ preserved_ok 8%nat j_tool_null_in_meta j_tool_null_dropped = true.
 Proof. vm_compute. repeat split; reflexivity. Qed.
